@@ -293,6 +293,7 @@ func (x *cbExec) lastEvent(kind string, since int) *h.Event {
 type cbOp struct {
 	Name    string
 	Modes   string // "" all; "lmtp" only LMTP modes; "smtp" only SMTP
+	Tier    string // "thorough": only in the thorough tier
 	Enabled func(m *cbModel) bool
 	Do      func(x *cbExec)
 }
@@ -632,10 +633,31 @@ func cbOps() []cbOp {
 		}},
 		{Name: "Mail(ok)", Enabled: idle, Do: cbMail("ok@a.example", nil)},
 		{Name: "Mail(ok,options)", Enabled: idle, Do: cbMail("okopts@a.example", cbMailOpts)},
+		{Name: "Mail(REQUIRETLS, not offered)", Enabled: idle, Do: func(x *cbExec) {
+			// the server does not offer REQUIRETLS (no TLS here): a local error, nothing but a due hello line is written
+			was := x.m.helloDone
+			x.begin()
+			err := x.cs.Client.Mail("ok@a.example", &smtp.MailOptions{RequireTLS: true})
+			cmds, reps, ok := x.commandLines(true)
+			if !ok {
+				return
+			}
+			if err == nil || len(cmds) != 0 || len(reps) != 0 {
+				x.fail("C15", "requiretls-not-offered", "Mail with RequireTLS on a server that does not offer REQUIRETLS returned %v and wrote %q (documented: a local error, nothing is sent)", err, cmds)
+			}
+			var se *smtp.SMTPError
+			if errors.As(err, &se) {
+				x.fail("C15", "requiretls-not-offered", "Mail with RequireTLS on a server that does not offer REQUIRETLS was answered by the server: %s", cbErrString(err))
+			}
+			if !was {
+				x.m.mailOpen, x.m.rcpts, x.m.from = false, nil, ""
+			}
+		}},
 		{Name: "Mail(rejected)", Enabled: idle, Do: cbMail("rej@a.example", nil)},
 		{Name: "Mail(temporary failure)", Enabled: idle, Do: cbMail("tmp@a.example", nil)},
 		{Name: "Rcpt(a)", Enabled: open, Do: cbRcpt("oka@b.example", nil)},
 		{Name: "Rcpt(b,options)", Enabled: open, Do: cbRcpt("okd5b@b.example", cbRcptOpts)},
+		{Name: "Rcpt(c)", Tier: "thorough", Enabled: open, Do: cbRcpt("okd4c@b.example", nil)},
 		{Name: "Rcpt(rejected)", Enabled: open, Do: cbRcpt("rej@b.example", nil)},
 		{Name: "Data(accepted)", Enabled: open, Do: cbData("data", false)},
 		{Name: "Data(rejected)", Enabled: open, Do: cbData("data", true)},
@@ -709,10 +731,16 @@ func cbOps() []cbOp {
 	}
 }
 
+// cbTier is the tier of the running check (the alphabet of the thorough tier has a third accepted recipient).
+var cbTier = "quick"
+
 func cbOpsFor(mode cbMode) []cbOp {
 	var out []cbOp
 	for _, o := range cbOps() {
 		if o.Modes == "lmtp" && !mode.LMTP || o.Modes == "smtp" && mode.LMTP {
+			continue
+		}
+		if o.Tier == "thorough" && cbTier != "thorough" {
 			continue
 		}
 		out = append(out, o)
@@ -724,6 +752,7 @@ func cbOpsFor(mode cbMode) []cbOp {
 const cbMaxStates = 40000
 
 type CBCase struct {
+	Tier  string   `json:"tier,omitempty"`
 	Mode  string   `json:"mode"`
 	Hist  []int    `json:"history"`
 	Names []string `json:"names"`
@@ -750,7 +779,7 @@ func cbModeByName(name string) cbMode {
 func runClientHistory(mode cbMode, hist []int) *cbResult {
 	ops := cbOpsFor(mode)
 	res := &cbResult{}
-	cfg := h.Config{LMTP: mode.LMTP, AllowInsecureAuth: true, UTF8: true, DSN: true, RRVS: true, BinaryMIME: true, MaxRecipients: 3, MaxMessageBytes: 1000}
+	cfg := h.Config{LMTP: mode.LMTP, AllowInsecureAuth: true, UTF8: true, DSN: true, RRVS: true, BinaryMIME: true, MaxRecipients: map[bool]int{false: 3, true: 4}[cbTier == "thorough"], MaxMessageBytes: 1000}
 	be := &h.Backend{LMTPSess: mode.LSess, Auth: true, Mechs: saslMechs, NewSASL: newSASL, ByContent: true, StatusByRcpt: true}
 	var names []string
 	for _, i := range hist {
@@ -819,6 +848,9 @@ func runClientHistory(mode cbMode, hist []int) *cbResult {
 }
 
 func replayCB(c CBCase) *h.Finding {
+	if c.Tier != "" {
+		cbTier = c.Tier
+	}
 	r := runClientHistory(cbModeByName(c.Mode), c.Hist)
 	for _, f := range r.Findings {
 		if f.Prop == c.Prop || f.Prop == "*" {
@@ -845,7 +877,7 @@ func exploreClient(run *h.Run, prop string, mode cbMode, maxDepth int) (states, 
 				for _, i := range hist {
 					names = append(names, ops[i].Name)
 				}
-				c := CBCase{Mode: mode.Name, Hist: hist, Names: names, Prop: prop}
+				c := CBCase{Tier: cbTier, Mode: mode.Name, Hist: hist, Names: names, Prop: prop}
 				run.Violate("client-bfs", c, f.F, func() *h.Finding { return replayCB(c) })
 				run.Outcome("violation:" + f.F.Sig)
 				return true
@@ -932,6 +964,7 @@ func exploreClient(run *h.Run, prop string, mode cbMode, maxDepth int) (states, 
 
 // clientSearch is the part of C15 - C18 that quantifies over histories of client calls.
 func clientSearch(run *h.Run, prop string, maxDepth int) {
+	cbTier = run.Tier
 	for _, mode := range cbModes {
 		s, t, d := exploreClient(run, prop, mode, maxDepth)
 		run.State(int64(s))
@@ -942,7 +975,7 @@ func clientSearch(run *h.Run, prop string, maxDepth int) {
 	}
 }
 
-const clientSearchRule = " (CB) explicit-state breadth-first search over HISTORIES OF CLIENT API CALLS on one connection - Hello, Noop, Reset, Mail (plain / with options / refused 550 / failing 451), Rcpt (two accepted addresses, one with options, one refused), Data and LMTPData (callback / nil) with an accepted and a rejected message, Client.SendMail with and without a refused recipient, Auth good/bad, Extension/SupportsAuth, Verify, Quit - real Client against real Server (all extensions on, MaxRecipients 3) in {SMTP, LMTP, LMTP per-recipient backend}, to the fixpoint of (Client private state, Conn private state, model state); every call is judged in every reachable state: octets written (hello line if due + one command line; parameters only from the most recent hello reply), returned error == the server's reply == the backend's error, envelope/body/verdict at the backend, LMTP callbacks per recipient of THIS transaction, client and server never blocked on each other."
+const clientSearchRule = " (CB) explicit-state breadth-first search over HISTORIES OF CLIENT API CALLS on one connection - Hello, Noop, Reset, Mail (plain / with options / with REQUIRETLS that is not offered / refused 550 / failing 451), Rcpt (two accepted addresses, one with options, one refused), Data and LMTPData (callback / nil) with an accepted and a rejected message, Client.SendMail with and without a refused recipient, Auth good/bad, Extension/SupportsAuth, Verify, Quit - real Client against real Server (all extensions on, MaxRecipients 3) in {SMTP, LMTP, LMTP per-recipient backend}, to the fixpoint of (Client private state, Conn private state, model state); every call is judged in every reachable state: octets written (hello line if due + one command line; parameters only from the most recent hello reply), returned error == the server's reply == the backend's error, envelope/body/verdict at the backend, LMTP callbacks per recipient of THIS transaction, client and server never blocked on each other."
 
 // CBAll runs the client search once with every oracle (development entry point: VERIF_PROP=CB).
 func CBAll(tier string) int {
